@@ -323,3 +323,20 @@ def c04():
                      "destination's range, string+real renderings and reads of *number fields as plain right-hand sides are outside the family"],
         not_modelled=["time.Time destinations"], chunks=8, workers=8, extra_cov=extra, extra_violations=eng["violations"],
         extra_unrep=eng["unreproduced"])
+
+
+def c18():
+    tier, _ = tier_seed()
+    cfgs = ["MCJson0.cfg", "MCJson1.cfg", "MCJson2.cfg"] + (["MCJson3.cfg"] if tier == "thorough" else ["MCJson3.cfg"])
+    return simple_cases_check(
+        "C18", "GrlJson.tla", cfgs, "json-replay",
+        rule="case = JSON operator tree of depth 1-3 over all 15 operators (2 and 3 operands, single-operand not) with operands given as plain numbers / "
+             "booleans / strings (object paths), {obj} and {const} wrappers or nested operator objects - well-typed ones only, with the value ToTree/Eval "
+             "gives when operands group exactly as nested; each goes through the real JSON resource -> translator -> GRL builder -> engine as the "
+             "argument of a typed sink call and, when boolean, also as the condition of a companion rule; names, descriptions (with quotes, "
+             "backslashes, newlines) and saliences are compared; 20 string constants with special characters must round-trip as constant, in a "
+             "condition and as description; 20 malformed rule shapes must be refused (alone and inside a rule set).",
+        model_text="GrlJson.tla (ToTree into GrlExpr.tla): depth 1, 2, 3 families, strings, malformed shapes",
+        key_of=lambda m: (m["fam"], m["what"].split()[0], str(m["got"])[:25]),
+        assumptions=["TLC and the Json module", "the harness's JSON printer and typed sink", "dyadic values; only ASCII strings travel through the Json module"],
+        not_modelled=["set actions on arbitrary targets (only call actions carry the trees)", "non-ASCII strings"], chunks=12, workers=4)
